@@ -260,6 +260,19 @@ def run(F, res, tier):
                     if k_ not in live and v_.get("signature", "").split(" | ")[0] == " > ".join(chain) and set(sinks) <= known_sinks:
                         rv = dict(v_, signature=sig)
                         break
+                if rv is None and base not in {_re.sub(r"(::\{closure#\d+\})+$", "", k_[len("H4/iter/"):].rsplit("/", 2)[0]) for k_ in reviewed}:
+                    # the loop was extracted into a helper that did not exist when the sites were reviewed (`copy_modules(&mut into, &from)`):
+                    # an orphaned entry of one of its callers, same callee, same consumer chain, no new sink
+                    callers = {_re.sub(r"(::\{closure#\d+\})+$", "", p_) for p_, g_ in F.fns.items() if g_.blocks and
+                               any((callee(t_) or "") == f.path for _b, t_ in g_.calls())}
+                    for cb in sorted(callers):
+                        fam2 = {k_: v_ for k_, v_ in reviewed.items() if k_.startswith("H4/iter/" + cb) and k_.rsplit("/", 2)[-2] == FL.short(c)}
+                        ks2 = set()
+                        for v_ in fam2.values():
+                            ks2 |= {x for x in v_.get("signature", "").split(" | ")[-1].split(",") if x}
+                        for k_, v_ in sorted(fam2.items()):
+                            if rv is None and k_ not in live and v_.get("signature", "").split(" | ")[0] == " > ".join(chain) and set(sinks) <= ks2:
+                                rv = dict(v_, signature=sig)
             if rv and rv.get("signature") == sig:
                 res.ob("H4", "iter/" + key, "this iteration over a RandomState-hashed collection does not let the iteration order reach an answer",
                        True, where=f.loc(t["ln"]), how="reviewed: %s [consumers: %s]" % (rv["reason"], sig), reviewed=True)
